@@ -152,7 +152,8 @@ func (g *valueGen) enum(t reflect.Type, k, d int) []CV {
 			out = append(out, CV{s, e.Cost})
 		}
 		if k >= 1 {
-			out = append(out, CV{reflect.Zero(t), 1}, CV{reflect.MakeSlice(t, 0, 0), 1})
+			// nil, empty, and empty with spare capacity (shares a backing array without sharing an element)
+			out = append(out, CV{reflect.Zero(t), 1}, CV{reflect.MakeSlice(t, 0, 0), 1}, CV{reflect.MakeSlice(t, 0, 2), 1})
 			// two elements: [alt, default] for every alt of cost ≤ k-1, plus [default, default]
 			for _, e := range g.enum(t.Elem(), k-1, d+1) {
 				s := reflect.MakeSlice(t, 2, 3)
